@@ -324,22 +324,195 @@ Proof.
     + rewrite !find_Nd, E. apply IHr; assumption.
 Qed.
 
+(* [1 <= nb]: block 0 is the header, so that a new node never gets address 0 *)
 Lemma ins_addr_ok : forall flag ss pre pa nb h t,
-  addr_ok t nb -> addr_ok (ins_t flag ss pre pa nb h t) (ins_nb flag ss pre pa nb h t).
+  1 <= nb -> addr_ok t nb ->
+  addr_ok (ins_t flag ss pre pa nb h t) (ins_nb flag ss pre pa nb h t).
 Proof.
-  intros flag ss pre pa nb h t [Hb Hinj]. split.
-  - intros p d' Hf. destruct (find_ins_class _ _ _ _ _ _ _ _ _ Hf) as [(d & Hd & Hk)|(Hn & Hpre & Hp)].
+  intros flag ss pre pa nb h t Hnb [Hb Hinj]. split.
+  - intros p d' Hf.
+    destruct (find_ins_class _ _ _ _ _ _ _ _ _ Hf) as [(d & Hd & Hk)|(Hn & Hpre & Hp)].
     + destruct Hk as (Ea & Es & _). destruct (Hb p d Hd) as (k & Hk1 & Hk2 & Hk3).
       exists k. rewrite Ea, Es. pose proof (ins_nb_mono flag ss pre pa nb h t).
       split; [exact Hk1|]. split; [exact Hk2|lia].
     + destruct (ins_new_addr flag ss pre pa nb h t p Hp Hpre Hn)
         as (d1 & Hd1 & (k & Hk1 & Hk2 & Hk3) & _).
       rewrite Hd1 in Hf. injection Hf as <-.
-      exists k. split; [exact Hk1|]. split; [|exact Hk3].
-      (* nb >= 1 is not known here: use the bound of the tree if any, else k >= nb *)
-      destruct (N.eq_dec k 0) as [->|Hk0]; [|lia].
-      exfalso.
-      (* k = 0 would need nb = 0; then no old node exists, which is fine, but 1 <= k fails *)
-      admit.
-  - admit.
-Admitted.
+      exists k. split; [exact Hk1|]. split; [lia|exact Hk3].
+  - intros p q dp dq Hfp Hfq Ha.
+    destruct (find_ins_class _ _ _ _ _ _ _ _ _ Hfp) as [(d1 & Hd1 & Hk1)|(Hn1 & Hpre1 & Hp1)];
+    destruct (find_ins_class _ _ _ _ _ _ _ _ _ Hfq) as [(d2 & Hd2 & Hk2)|(Hn2 & Hpre2 & Hp2)].
+    + destruct Hk1 as (Ea1 & _). destruct Hk2 as (Ea2 & _).
+      apply (Hinj p q d1 d2 Hd1 Hd2). congruence.
+    + exfalso. destruct Hk1 as (Ea1 & _).
+      destruct (Hb p d1 Hd1) as (k1 & Hk11 & Hk12 & Hk13).
+      destruct (ins_new_addr flag ss pre pa nb h t q Hp2 Hpre2 Hn2)
+        as (d' & Hd' & (k & Hk1 & Hk2 & Hk3) & _).
+      rewrite Hd' in Hfq. injection Hfq as <-.
+      rewrite Ea1, Hk11, Hk1 in Ha. apply mul_bsz_inj in Ha.
+      pose proof (nblk_pos (stem d1)). lia.
+    + exfalso. destruct Hk2 as (Ea2 & _).
+      destruct (Hb q d2 Hd2) as (k2 & Hk21 & Hk22 & Hk23).
+      destruct (ins_new_addr flag ss pre pa nb h t p Hp1 Hpre1 Hn1)
+        as (d' & Hd' & (k & Hk1 & Hk2 & Hk3) & _).
+      rewrite Hd' in Hfp. injection Hfp as <-.
+      rewrite Ea2, Hk21, Hk1 in Ha. apply mul_bsz_inj in Ha.
+      pose proof (nblk_pos (stem d2)). lia.
+    + eapply ins_new_inj; eassumption.
+Qed.
+
+(* ---- add_lru ------------------------------------------------------------- *)
+
+Lemma add_lru_tr : forall flag l s,
+  tr (fst (add_lru flag l s)) = ins_t flag (lru_iter l) [] 0 (nb s) hist0 (tr s).
+Proof.
+  intros. unfold add_lru, ins_t.
+  destruct (ins flag (lru_iter l) [] 0 (nb s) hist0 (tr s)) as [[t' nb'] h']. reflexivity.
+Qed.
+
+Lemma add_lru_nb : forall flag l s,
+  nb (fst (add_lru flag l s)) = ins_nb flag (lru_iter l) [] 0 (nb s) hist0 (tr s).
+Proof.
+  intros. unfold add_lru, ins_nb.
+  destruct (ins flag (lru_iter l) [] 0 (nb s) hist0 (tr s)) as [[t' nb'] h']. reflexivity.
+Qed.
+
+Lemma add_lru_stubs : forall flag l s, stubs (fst (add_lru flag l s)) = stubs s.
+Proof.
+  intros. unfold add_lru.
+  destruct (ins flag (lru_iter l) [] 0 (nb s) hist0 (tr s)) as [[t' nb'] h']. reflexivity.
+Qed.
+
+Lemma add_lru_wf : forall flag l s, wf_tst (tr s) -> wf_tst (tr (fst (add_lru flag l s))).
+Proof. intros. rewrite add_lru_tr. apply ins_wf; [apply lru_iter_wf|assumption]. Qed.
+
+Lemma add_lru_addr_ok : forall flag l s,
+  1 <= nb s -> addr_ok (tr s) (nb s) ->
+  let s' := fst (add_lru flag l s) in addr_ok (tr s') (nb s').
+Proof.
+  intros flag l s Hnb Hok. cbv zeta. rewrite add_lru_tr, add_lru_nb.
+  apply ins_addr_ok; assumption.
+Qed.
+
+Lemma add_lru_addr_stable : forall flag l s p d,
+  find p (tr s) = Some d ->
+  exists d', find p (tr (fst (add_lru flag l s))) = Some d' /\
+             addr d' = addr d /\ page d' = page d /\ outh d' = outh d /\ inh d' = inh d.
+Proof.
+  intros flag l s p d Hf. rewrite add_lru_tr.
+  destruct (find_ins_keeps flag (lru_iter l) [] 0 (nb s) hist0 (tr s) p d Hf)
+    as (d' & Hd' & Ha & _ & Hp & _ & _ & _ & Ho & Hi).
+  exists d'. auto.
+Qed.
+
+(* the nodes of the tree after add_lru: old ones (heads kept) or fresh ones (no links) *)
+Lemma add_lru_class : forall flag l s p d',
+  find p (tr (fst (add_lru flag l s))) = Some d' ->
+  (exists d, find p (tr s) = Some d /\ keeps d' d) \/
+  (find p (tr s) = None /\ page d' = false /\ outh d' = 0 /\ inh d' = 0).
+Proof.
+  intros flag l s p d' Hf. rewrite add_lru_tr in Hf.
+  destruct (find_ins_class _ _ _ _ _ _ _ _ _ Hf) as [H|(Hn & Hpre & Hp)]; [left; exact H|].
+  right. split; [exact Hn|].
+  destruct (ins_new_addr flag (lru_iter l) [] 0 (nb s) hist0 (tr s) p Hp Hpre Hn)
+    as (d1 & Hd1 & _ & Hpg & _ & _ & _ & Ho & Hi).
+  rewrite Hd1 in Hf. injection Hf as <-. auto.
+Qed.
+
+(* ---- upd ----------------------------------------------------------------- *)
+
+Lemma find_upd_class : forall f q t p d', (forall d, stem (f d) = stem d) ->
+  find p (upd f q t) = Some d' ->
+  (p = q /\ exists d, find q t = Some d /\ d' = f d) \/ (p <> q /\ find p t = Some d').
+Proof.
+  intros f q t p d' Hf H.
+  destruct (list_eq_dec (list_eq_dec N.eq_dec) p q) as [->|Hne].
+  - left. split; [reflexivity|]. rewrite find_upd_same in H by exact Hf.
+    destruct (find q t) as [d|]; [|discriminate H]. exists d. cbn in H. split; congruence.
+  - right. split; [exact Hne|]. rewrite find_upd_other in H by assumption. exact H.
+Qed.
+
+Lemma find_upd_keeps : forall f q t p d, (forall d, stem (f d) = stem d) ->
+  find p t = Some d ->
+  find p (upd f q t) = Some d \/ (p = q /\ find p (upd f q t) = Some (f d)).
+Proof.
+  intros f q t p d Hf H.
+  destruct (list_eq_dec (list_eq_dec N.eq_dec) p q) as [->|Hne].
+  - right. split; [reflexivity|]. rewrite find_upd_same, H by exact Hf. reflexivity.
+  - left. rewrite find_upd_other by assumption. exact H.
+Qed.
+
+Lemma upd_addr_ok : forall f q t nb,
+  (forall d, stem (f d) = stem d /\ addr (f d) = addr d) ->
+  addr_ok t nb -> addr_ok (upd f q t) nb.
+Proof.
+  intros f q t nb Hf [Hb Hinj].
+  assert (Hs : forall d, stem (f d) = stem d) by (intro d; apply Hf).
+  assert (Ha : forall d, addr (f d) = addr d) by (intro d; apply Hf).
+  split.
+  - intros p d' H. destruct (find_upd_class f q t p d' Hs H) as [(-> & d & Hd & ->)|(_ & Hd)].
+    + rewrite Hs, Ha. eapply Hb; eauto.
+    + eapply Hb; eauto.
+  - intros p p' d1 d2 H1 H2 E.
+    destruct (find_upd_class f q t p d1 Hs H1) as [(-> & e1 & He1 & ->)|(_ & He1)];
+    destruct (find_upd_class f q t p' d2 Hs H2) as [(-> & e2 & He2 & ->)|(_ & He2)];
+      rewrite ?Ha in E; eapply Hinj; eauto.
+Qed.
+
+(* ---- lru_at -------------------------------------------------------------- *)
+
+Lemma node_at_spec : forall t nb p d, wf_tst t -> addr_ok t nb -> find p t = Some d ->
+  exists d', node_at (addr d) t = Some (concat p, d').
+Proof.
+  intros t nb p d Hwf [_ Hinj] Hf. unfold node_at.
+  destruct (List.find (fun x => addr (snd x) =? addr d) (all_nodes t)) as [[l d']|] eqn:E.
+  - apply find_some in E. destruct E as [Hin Ha]. cbn [snd] in Ha. apply N.eqb_eq in Ha.
+    rewrite all_nodes_paths in Hin. apply in_map_iff in Hin.
+    destruct Hin as ([p' d''] & Heq & Hin). cbn [fst snd] in Heq. injection Heq as <- <-.
+    apply (paths_find t Hwf) in Hin.
+    rewrite (Hinj p' p d'' d Hin Hf Ha). eauto.
+  - exfalso. apply (paths_find t Hwf) in Hf.
+    assert (Hin : In (concat p, d) (all_nodes t)).
+    { rewrite all_nodes_paths. apply in_map_iff. exists (p, d). split; [reflexivity|exact Hf]. }
+    pose proof (find_none _ _ E (concat p, d) Hin) as Hc. cbn [snd] in Hc.
+    rewrite N.eqb_refl in Hc. discriminate Hc.
+Qed.
+
+Lemma lru_at_spec : forall s p d, wf_tst (tr s) -> addr_ok (tr s) (nb s) ->
+  find p (tr s) = Some d -> lru_at (addr d) s = concat p.
+Proof.
+  intros s p d Hwf Hok Hf. unfold lru_at.
+  destruct (node_at_spec (tr s) (nb s) p d Hwf Hok Hf) as (d' & ->). reflexivity.
+Qed.
+
+(* lru_at only looks at the tree *)
+Lemma lru_at_tr : forall a s s', tr s' = tr s -> lru_at a s' = lru_at a s.
+Proof. intros a s s' E. unfold lru_at. rewrite E. reflexivity. Qed.
+
+Lemma lru_at_add_lru : forall flag l s p d,
+  wf_tst (tr s) -> 1 <= nb s -> addr_ok (tr s) (nb s) -> find p (tr s) = Some d ->
+  lru_at (addr d) (fst (add_lru flag l s)) = lru_at (addr d) s.
+Proof.
+  intros flag l s p d Hwf Hnb Hok Hf.
+  rewrite (lru_at_spec s p d Hwf Hok Hf).
+  destruct (add_lru_addr_stable flag l s p d Hf) as (d' & Hd' & Ha & _).
+  rewrite <- Ha. apply lru_at_spec; [apply add_lru_wf; exact Hwf| |exact Hd'].
+  apply add_lru_addr_ok; assumption.
+Qed.
+
+Lemma lru_at_upd : forall f q s s' p d,
+  (forall d, stem (f d) = stem d /\ addr (f d) = addr d) ->
+  tr s' = upd f q (tr s) -> nb s' = nb s ->
+  wf_tst (tr s) -> addr_ok (tr s) (nb s) -> find p (tr s) = Some d ->
+  lru_at (addr d) s' = lru_at (addr d) s.
+Proof.
+  intros f q s s' p d Hf Etr Enb Hwf Hok Hd.
+  assert (Hs : forall d, stem (f d) = stem d) by (intro x; apply Hf).
+  rewrite (lru_at_spec s p d Hwf Hok Hd).
+  assert (Hwf' : wf_tst (tr s')) by (rewrite Etr; apply upd_wf; assumption).
+  assert (Hok' : addr_ok (tr s') (nb s')) by (rewrite Etr, Enb; apply upd_addr_ok; assumption).
+  destruct (find_upd_keeps f q (tr s) p d Hs Hd) as [H|(_ & H)]; rewrite <- Etr in H.
+  - apply (lru_at_spec s' p d Hwf' Hok' H).
+  - replace (addr d) with (addr (f d)) by apply Hf.
+    apply (lru_at_spec s' p (f d) Hwf' Hok' H).
+Qed.
